@@ -71,7 +71,7 @@ fn main() {
             report::write_out(out, &s.to_json("C18", seed));
         }
         "c18p" if args.flag("once") => {
-            let s = c18p::run_once(seed, args.usize("shard", 0), args.usize("of", 1), args.str("only"), args.usize("calls", 4), args.usize("related", 0));
+            let s = c18p::run_once(seed, args.usize("shard", 0), args.usize("of", 1), args.str("only"), args.usize("calls", 4), args.usize("related", 0), args.usize("swizzles", 0));
             report::write_out(out, &s.to_json("C18", seed));
         }
         "c18p" => {
@@ -114,7 +114,7 @@ fn main() {
                 "C18" if j["part"].as_str() == Some("conv") && j.get("rounds").is_some() => conv::replay(&j),
                 "C18" if j["part"].as_str() == Some("M") && j["case"]["kind"].as_str() == Some("op") => {
                     // a monitor abort inside a plain op call: run that op again under the same monitor
-                    let s = c18p::run_once(seed, 0, 1, j["case"]["fn"].as_str(), 4, usize::MAX);
+                    let s = c18p::run_once(seed, 0, 1, j["case"]["fn"].as_str(), 4, usize::MAX, 0);
                     s.violations.into_iter().next().map(|v| (v.class, v.detail))
                 }
                 "C18" if j["part"].as_str() == Some("M") => {
